@@ -391,7 +391,7 @@ PROPS = {
                  "the graph, (5) source map decodes, every segment lies inside both texts, every generated identifier "
                  "token that starts at a segment maps to the same identifier (keywords, modifier keywords in the original, "
                  "the same name as a string-literal key, and a second segment at the same position that maps correctly "
-                 "are exempt). non-trivial = lattice case with >= 3 operations, or a world with >= 1 emitted module; "
+                 "are exempt). non-trivial = lattice case with >= 3 operations, or a world with an emitted module in which >= 1 private module-level declaration was pulled in by reference and >= 1 was dropped; "
                  "distinct = distinct model input"),
         "assumptions": [
             "the tracer (analyze_module_info) and the transform are NOT modelled: closure of real outputs is judged per output by the proved decision procedure, not proved for all inputs",
